@@ -38,6 +38,8 @@ func main() {
 		}
 		b, _ := json.Marshal(cs)
 		fmt.Println(string(b))
+	case "findshape":
+		os.Exit(findShapeMain(os.Args[2:]))
 	case "list":
 		for id, p := range props {
 			fmt.Println(id, p.Engine, p.Level)
